@@ -135,56 +135,114 @@ def check_case(rec, case):
     try:
         if kind == 'pda':
             GambaTools.pda_epsilon_closure_max_iterations = case['limit']
-        nmax = max(ns)
-        _CUR['premise'] = True
-        accepted = set()
-        ok = True
-        for w in fa.words_upto(Sigma, nmax):
-            o = call(acc, w, _cpu=10)
-            if o.kind == 'timeout':
-                rec.inconc('acceptance test exceeded the CPU guard')
-                ok = False
-                break
-            if not o.ok:
-                rec.inconc('acceptance test raised %s (judged under its own property)' % type(o.exc).__name__)
-                ok = False
-                break
-            if o.value:
-                accepted.add(w)
-        if not ok:
-            rec.note_case(case, case['cls'], False)
-            return
-        acc_premise = _CUR['premise']
-        exact = None
-        for n in ns:
-            expected = {w for w in accepted if len(w) <= n}
-            total = sum(len(Sigma) ** i for i in range(n + 1))
-            if n >= 1 and 0 < len(expected) < total:
-                nontrivial = True
-            for (f, label) in ((enum, fname), (lambda n_: lg.generate_language(X, n_), 'generate_language')):
-                if label == 'generate_language' and kind == 'tm' and case['max_steps'] != 1000:
-                    continue
-                _CUR['premise'] = True
-                o = call(f, n, _cpu=5 if kind == 'pda' else 20)
-                if o.kind == 'timeout' and kind in ('cfg', 'rx', 'pda'):
-                    rec.inconc('enumerator exceeded the CPU guard')
-                    continue
-                if not o.ok:
-                    report_failure(rec, o, label, n=n, kind=kind)
-                    continue
-                strict = True
+        for round_ in (0, 1):
+            if round_ == 1:
+                # the same OBJECT after an in-place change: enumerate again; the acceptance test (asked again as well) is the
+                # yardstick, so an enumerator that remembers anything about the object from the first round is exposed
+                if not case.get('requery') or not _mutate_in_place(kind, X, case):
+                    break
+                ns = [n for n in ns if n <= 4][-2:]
+                rec.counters['requery_after_in_place_change'] += 1
                 if kind == 'pda':
-                    strict = acc_premise and _CUR['premise']
-                    rec.counters['pda_exact_regime' if strict else 'pda_truncated_regime'] += 1
-                    if not strict and exact is None:
-                        exact = pd.language_upto(R, nmax)
-                if label == 'generate_language':
-                    rec.ev(fname.replace('_words_up_to_n', '') + '/generate_language')
-                judge(rec, label if label == 'generate_language' else fname, o.value, expected, n, strict=strict,
-                      exact=None if strict else {w for w in exact if len(w) <= n}, kind=kind)
+                    R = adapt.pda_ref(X)
+            nmax = max(ns)
+            _CUR['premise'] = True
+            accepted = set()
+            ok = True
+            for w in fa.words_upto(Sigma, nmax):
+                o = call(acc, w, _cpu=10)
+                if o.kind == 'timeout':
+                    rec.inconc('acceptance test exceeded the CPU guard')
+                    ok = False
+                    break
+                if not o.ok:
+                    rec.inconc('acceptance test raised %s (judged under its own property)' % type(o.exc).__name__)
+                    ok = False
+                    break
+                if o.value:
+                    accepted.add(w)
+            if not ok:
+                rec.note_case(case, case['cls'], False)
+                return
+            acc_premise = _CUR['premise']
+            exact = None
+            for n in ns:
+                expected = {w for w in accepted if len(w) <= n}
+                total = sum(len(Sigma) ** i for i in range(n + 1))
+                if n >= 1 and 0 < len(expected) < total:
+                    nontrivial = True
+                for (f, label) in ((enum, fname), (lambda n_: lg.generate_language(X, n_), 'generate_language')):
+                    if label == 'generate_language' and kind == 'tm' and case['max_steps'] != 1000:
+                        continue
+                    _CUR['premise'] = True
+                    o = call(f, n, _cpu=5 if kind == 'pda' else 20)
+                    if o.kind == 'timeout' and kind in ('cfg', 'rx', 'pda'):
+                        rec.inconc('enumerator exceeded the CPU guard')
+                        continue
+                    if not o.ok:
+                        report_failure(rec, o, label, n=n, kind=kind, after_in_place_change=bool(round_))
+                        continue
+                    strict = True
+                    if kind == 'pda':
+                        strict = acc_premise and _CUR['premise']
+                        rec.counters['pda_exact_regime' if strict else 'pda_truncated_regime'] += 1
+                        if not strict and exact is None:
+                            exact = pd.language_upto(R, nmax)
+                    if label == 'generate_language':
+                        rec.ev(fname.replace('_words_up_to_n', '') + '/generate_language')
+                    judge(rec, label if label == 'generate_language' else fname, o.value, expected, n, strict=strict,
+                          exact=None if strict else {w for w in exact if len(w) <= n}, kind=kind, after_in_place_change=bool(round_))
     finally:
         GambaTools.pda_epsilon_closure_max_iterations = old
     rec.note_case(case, case['cls'], nontrivial)
+
+
+def _mutate_in_place(kind, X, case):
+    import random
+    from vt.rec import h64
+    r = random.Random(h64(jsonable_case(case)))
+    try:
+        if kind == 'dfa':
+            Q = sorted(X.Q)
+            X.F ^= {r.choice(Q)}
+            keys = sorted(X.delta)
+            if keys:
+                X.delta[r.choice(keys)] = r.choice(Q)
+        elif kind == 'nfa':
+            Q = sorted(X.Q)
+            X.F ^= {r.choice(Q)}
+            if X.Sigma:
+                key = (r.choice(Q), r.choice(sorted(X.Sigma)))
+                X.delta[key] = set(X.delta.get(key, set())) | {r.choice(Q)}
+        elif kind == 'pda':
+            Q = sorted(X.Q)
+            X.F ^= {r.choice(Q)}
+            if X.Sigma:
+                key = (r.choice(Q), r.choice(sorted(X.Sigma)), X.epsilon)
+                X.delta[key] = set(X.delta.get(key, set())) | {(r.choice(Q), X.epsilon)}
+        elif kind == 'tm':
+            keys = sorted(X.delta)
+            if not keys:
+                return False
+            k = r.choice(keys)
+            (q, b, d) = X.delta[k]
+            X.delta[k] = (r.choice([X.q_accept, X.q_reject]), b, d)
+        elif kind == 'cfg':
+            if len(X.R) >= 2:
+                X.R.pop(r.randrange(len(X.R)))
+            others = sorted(v for v in X.V if v != X.S)
+            if others and r.random() < 0.5:
+                X.S = others[0]
+        else:
+            return False
+    except Exception:
+        return False
+    return True
+
+
+def jsonable_case(case):
+    from vt.rec import jsonable
+    return jsonable({k: v for k, v in case.items()})
 
 
 def gen_cases(rec, rng, tier):
@@ -224,8 +282,8 @@ def gen_cases(rec, rng, tier):
     for _ in range(60 if thorough else 20):
         n = rng.randint(1, 6)
         k = rng.randint(1, 3)
-        yield {'kind': 'dfa', 'cls': 'random_dfa', 'ref': fag.random_dfa(rng, n, k), 'ns': big if k <= 2 else ns}
-        yield {'kind': 'nfa', 'cls': 'random_nfa', 'ref': fag.random_nfa(rng, n, k, eps_density=rng.choice([0, 0.3, 0.8])), 'ns': big if k <= 2 else ns,
+        yield {'kind': 'dfa', 'cls': 'random_dfa', 'requery': True, 'ref': fag.random_dfa(rng, n, k), 'ns': big if k <= 2 else ns}
+        yield {'kind': 'nfa', 'cls': 'random_nfa', 'requery': True, 'ref': fag.random_nfa(rng, n, k, eps_density=rng.choice([0, 0.3, 0.8])), 'ns': big if k <= 2 else ns,
                'eps': rng.choice(['', '_', 'ε']), 'container': rng.choice(adapt.NFA_KINDS)}
         t = rxg.random_tree(rng, rng.randint(3, 7), 'ab', bias=rng.choice([None, 'star', 'unit']))
         if rx.size_iter(t) <= 25:
@@ -234,9 +292,9 @@ def gen_cases(rec, rng, tier):
         if rx.size_iter(t) <= 25:
             yield {'kind': 'rx', 'cls': 'random_tree_digit_symbols', 'ref': t, 'ns': ns}
         RG = cfgg.random_grammar(rng, rng.randint(1, 5), rng.randint(1, 8), max_rhs=rng.choice([2, 3, 4]), nt=rng.randint(1, 2))
-        yield {'kind': 'cfg', 'cls': 'random_grammar', 'ref': RG, 'ns': ns}
+        yield {'kind': 'cfg', 'cls': 'random_grammar', 'requery': True, 'ref': RG, 'ns': ns}
         RG = cfgg.random_cnf(rng, rng.randint(1, 5), rng.randint(0, 6), nt=rng.randint(1, 2))
-        yield {'kind': 'cfg', 'cls': 'random_cnf', 'ref': RG, 'ns': ns if not thorough else [0, 1, 2, 3, 5]}
+        yield {'kind': 'cfg', 'cls': 'random_cnf', 'requery': True, 'ref': RG, 'ns': ns if not thorough else [0, 1, 2, 3, 5]}
         yield {'kind': 'cfg', 'cls': 'multichar_variable_names', 'ref': cfgg.multichar_renaming(rng, RG), 'ns': ns}
         RG2 = cfgg.random_grammar(rng, rng.randint(2, 5), rng.randint(2, 8), max_rhs=3, nt=2)
         yield {'kind': 'cfg', 'cls': 'multichar_variable_names', 'ref': cfgg.multichar_renaming(rng, RG2), 'ns': ns}
@@ -246,7 +304,7 @@ def gen_cases(rec, rng, tier):
             yield {'kind': 'cfg', 'cls': 'same_rules_other_start_variable', 'ref': tw, 'ns': [0, 2, 3]}
         RP = pdag.random_pda(rng, rng.randint(1, 4), rng.randint(1, 2), rng.randint(0, 3), rng.randint(1, 8))
         lim = rng.choice([3, 10, 50, 1000])
-        yield {'kind': 'pda', 'cls': 'random_pda', 'ref': RP, 'ns': [0, 1, 2] if lim == 1000 else ([0, 1, 2, 3] if lim == 50 else ns), 'limit': lim, 'eps': rng.choice(['', '_'])}
+        yield {'kind': 'pda', 'cls': 'random_pda', 'requery': True, 'ref': RP, 'ns': [0, 1, 2] if lim == 1000 else ([0, 1, 2, 3] if lim == 50 else ns), 'limit': lim, 'eps': rng.choice(['', '_'])}
         RPc = pdag.colliding_names(rng, RP)
         if RPc is not None:
             yield {'kind': 'pda', 'cls': 'colliding_state_and_stack_names', 'ref': RPc, 'ns': [0, 1, 2, 3], 'limit': 10, 'eps': ''}
